@@ -17,7 +17,7 @@ impl Compiler {
             && self.module_aliases.contains(module_name)
         {
             let global_name = format!("{}::{}", module_name, member);
-            let idx = self.get_or_create_global_index(&global_name);
+            let idx = self.get_or_create_global_index(&global_name)?;
             self.accessed_globals.insert(global_name.clone());
             self.emit_b(aelys_bytecode::OpCode::GetGlobalIdx, dest, idx as i16, span);
             return Ok(());
